@@ -30,7 +30,8 @@ class T5:
     """One translation target."""
 
     def __init__(self, name, file, func, cls=None, binders="", ret="Rat", env=None, attrs=None, assign=None, result=None,
-                 monadic=True, methods=None, ctors=None, src=None, ignore=(), doc="", opt=None, super_call=None):
+                 monadic=True, methods=None, ctors=None, src=None, ignore=(), doc="", opt=None, super_call=None,
+                 init=(), copies=None, refine=None, ignore_assign=(), ret_types=None):
         self.name, self.file, self.func, self.cls = name, file, func, cls
         self.binders, self.ret = binders, ret
         self.env = dict(env or {})          # python local / parameter name -> (lean, type)
@@ -45,6 +46,11 @@ class T5:
         self.doc = doc
         self.opt = dict(opt or {})          # (var, attr) of an Optional attribute -> (lean mut var, element type)
         self.super_call = super_call        # lean function `super().translate_rotate(translation, angle)` denotes
+        self.init = list(init)              # (lean mut var, initial value): the fields of `self` the method may assign
+        self.copies = dict(copies or {})    # local object name -> ([(lean mut var, field of the model record)], (lean record, type))
+        self.refine = dict(refine or {})    # source of an isinstance test -> (lean Bool, {source text: (lean, type)} inside its branch)
+        self.ignore_assign = set(ignore_assign)   # attributes whose assignment has no modelled effect (spatial index, caches)
+        self.ret_types = dict(ret_types or {})    # type of a returned expression -> template of the returned model value
 
 
 TRANSFORM = "commonroad/geometry/transform.py"
@@ -54,8 +60,9 @@ class Ty:
     def __init__(self, t: T5):
         self.t = t
         self.env = dict(t.env)
-        self.muts = set()
+        self.muts = set(v for v, _ in t.init)
         self.tmp = 0
+        self.depth = 0
 
     # ------------------------------------------------------------------ helpers
     def dotted(self, n):
@@ -406,26 +413,42 @@ class Ty:
     def store(self, tgt, val, ty, pad):
         if isinstance(tgt, ast.Name):
             name = tgt.id
-            lean = {"end": "end_", "from": "from_"}.get(name, name)
-            if name in self.env and self.env[name][0] == lean and lean in self.muts:
-                self.env[name] = (lean, ty)
-                return f"{pad}{lean} := {val}\n"
+            lean = {"end": "end_", "from": "from_", "init": "init_"}.get(name, name)
             if name in self.t.env:
                 raise Unsupported(f"assignment to parameter {name}")
+            known = name in self.env and self.env[name][0] in self.muts
+            if known and self.env[name][1] == ty:
+                return f"{pad}{self.env[name][0]} := {val}\n"
+            if known:
+                if self.depth > 0 and name not in self.local_scope:
+                    raise Unsupported(f"{name} re-bound with another type inside a branch")
+                lean = self.fresh(lean)         # a Lean `let mut` cannot be shadowed: the re-typed variable gets a fresh name
             self.env[name] = (lean, ty)
             self.muts.add(lean)
+            self.local_scope.add(name)
             return f"{pad}let mut {lean} := {val}\n"
         var, tmpls = self.target(tgt)
         if ty not in tmpls:
             raise Unsupported(f"assignment of a {ty} to {ast.unparse(tgt)}")
         return f"{pad}{var} := {tmpls[ty].format(v=val)}\n"
 
-    def block(self, stmts, ind):
+    local_scope: set = set()
+
+    def block(self, stmts, ind, nested=True):
         pad = "  " * ind
         out = ""
         scope = set(self.env)
-        for i, s in enumerate(stmts):
-            out += self.stmt(s, ind, last=(i == len(stmts) - 1))
+        saved_local = self.local_scope
+        self.local_scope = set()
+        if nested:
+            self.depth += 1
+        try:
+            for i, s in enumerate(stmts):
+                out += self.stmt(s, ind, last=(i == len(stmts) - 1))
+        finally:
+            if nested:
+                self.depth -= 1
+            self.local_scope = saved_local
         for k in set(self.env) - scope:
             del self.env[k]                     # a name first bound in a nested block is not visible after it
         return out or f"{pad}pure ()\n"
@@ -488,7 +511,19 @@ class Ty:
                 for x, (nm, ty) in zip(tg.elts, tmps):
                     out += self.store(x, nm, ty, pad)
                 return out
-            # `xs[i] = v` inside an enumerate loop is handled by the loop
+            if isinstance(tg, ast.Attribute) and (self.dotted(tg.value), tg.attr) in t.ignore_assign:
+                return ""
+            if isinstance(tg, ast.Name) and tg.id in t.copies:
+                v, ty = self.e(s.value)
+                fields, rec = t.copies[tg.id]
+                self.need(ty, rec[1], f"object bound to {tg.id}")
+                nm = self.fresh("o")
+                out = f"{pad}let {nm} := {v}\n"
+                for var, fld in fields:
+                    out += f"{pad}let mut {var} := {nm}.{fld}\n"
+                    self.muts.add(var)
+                self.env[tg.id] = rec
+                return out
             # empty list accumulators
             if isinstance(tg, ast.Name) and ((isinstance(s.value, ast.List) and not s.value.elts)
                                              or (isinstance(s.value, ast.Call) and self.dotted(s.value.func) == "list" and not s.value.args)):
@@ -514,16 +549,35 @@ class Ty:
                 key = (self.dotted(te.left.value), te.left.attr)
                 var, ety = t.opt[key]
                 inner = var + "_v"
-                saved_attrs, saved_assign = dict(t.attrs), dict(t.assign)
+                saved_attrs, saved_assign, saved_opt = dict(t.attrs), dict(t.assign), dict(t.opt)
                 for k, (v, _) in list(t.opt.items()):
                     if v == var:
                         t.attrs[k] = (inner, ety)
                         t.assign[k] = (inner, {ety: "{v}"})
+                        del t.opt[k]
                 self.muts.add(inner)
-                body = self.block(s.body, ind + 2)
-                t.attrs, t.assign = saved_attrs, saved_assign
+                try:
+                    body = self.block(s.body, ind + 2)
+                finally:
+                    t.attrs, t.assign, t.opt = saved_attrs, saved_assign, saved_opt
                 return (f"{pad}match {var} with\n{pad}| none => pure ()\n{pad}| some {inner} =>\n{pad}    let mut {inner} := {inner}\n"
                         f"{body}{pad}    {var} := some {inner}\n")
+            key = ast.unparse(s.test)
+            if key in t.refine:
+                c, extra = t.refine[key]
+                saved = dict(t.src)
+                t.src.update(extra)
+                try:
+                    body = self.block(s.body, ind + 1)
+                finally:
+                    t.src = saved
+                out = f"{pad}if {c} then\n{body}"
+                if s.orelse:
+                    if len(s.orelse) == 1 and isinstance(s.orelse[0], ast.If):
+                        out += f"{pad}else\n{self.stmt(s.orelse[0], ind + 1)}"
+                    else:
+                        out += f"{pad}else\n{self.block(s.orelse, ind + 1)}"
+                return out
             c, ty = self.e(s.test)
             self.need(ty, "bool", "if")
             if c == "true":
@@ -633,7 +687,7 @@ class Ty:
         t = self.t
         body = ""
         stmts = list(fn.body)
-        out = self.block(stmts, 1)
+        out = "".join(f"  let mut {v} := {x}\n" for v, x in t.init) + self.block(stmts, 1, nested=False)
         ends_with_return = bool(stmts) and isinstance(stmts[-1], ast.Return)
         if not ends_with_return:
             if t.result is None:
@@ -666,7 +720,8 @@ def targets():
     ts = []
 
     def add(t, ret_types=None):
-        t.ret_types = ret_types or {}
+        if ret_types:
+            t.ret_types = ret_types
         ts.append(t)
         return t
     add(T5("transform_to_homogeneous_coordinates", TRANSFORM, "to_homogeneous_coordinates", None, f"(points : {P})",
@@ -681,6 +736,176 @@ def targets():
         add(T5("transform_" + nm, TRANSFORM, nm, None, f"(c s a : Rat) (vertices : {P}) (translation : CR.Rigid.Pt)", P,
                env={**CSA, "translation": ("translation", "pt"), "vertices": ("vertices", "pts")}, monadic=False,
                doc="c = math.cos(angle), s = math.sin(angle), a = angle"), {"pts": "{v}"})
+    # ------------------------------------------------------------------ translate_rotate methods
+    R = "CR.Rigid."
+    SHAPE, STATE = "commonroad/geometry/shape.py", "commonroad/scenario/state.py"
+    OBST, PRED = "commonroad/scenario/obstacle.py", "commonroad/prediction/prediction.py"
+    TR = "translate_rotate"
+    shape_m = {"shape": (R + "Shape.move m", "ret", "shape")}
+    state_m = {"state": (R + "State.move m", "ret", "state")}
+    ident = lambda ty: {ty: "{v}"}       # noqa: E731
+
+    def rw(var, ty, *names):             # read + write access to a field of self under several attribute names
+        a = {("self", n): (var, ty) for n in names}
+        w = {("self", n): (var, ident(ty)) for n in names}
+        return a, w
+
+    # shapes (functional API: return the moved shape)
+    add(T5("Rectangle_translate_rotate", SHAPE, TR, "Rectangle", f"(m : {R}Mo) (l w : Rat) (ctr : {R}Pt) (θ : Rat)", R + "Shape", env=MO,
+           attrs={("self", "_length"): ("l", "rat"), ("self", "length"): ("l", "rat"), ("self", "_width"): ("w", "rat"),
+                  ("self", "width"): ("w", "rat"), ("self", "_center"): ("ctr", "pt"), ("self", "center"): ("ctr", "pt"),
+                  ("self", "_orientation"): ("θ", "rat"), ("self", "orientation"): ("θ", "rat")},
+           ctors={"Rectangle": (R + "Shape.rect {0} {1} {2} {3}", ["rat", "rat", "pt", "rat"], "shape", False)},
+           ret_types=ident("shape")))
+    add(T5("Circle_translate_rotate", SHAPE, TR, "Circle", f"(m : {R}Mo) (r : Rat) (ctr : {R}Pt)", R + "Shape", env=MO,
+           attrs={("self", "_radius"): ("r", "rat"), ("self", "radius"): ("r", "rat"), ("self", "_center"): ("ctr", "pt"),
+                  ("self", "center"): ("ctr", "pt")},
+           ctors={"Circle": (R + "Shape.circ {0} {1}", ["rat", "pt"], "shape", False)}, ret_types=ident("shape")))
+    add(T5("Polygon_translate_rotate", SHAPE, TR, "Polygon", f"(m : {R}Mo) (vs : {P})", R + "Shape", env=MO,
+           attrs={("self", "_vertices"): ("vs", "pts"), ("self", "vertices"): ("vs", "pts")},
+           ctors={"Polygon": (R + "polyMk {0}", ["pts"], "ring", True)}, ret_types={"ring": "(" + R + "Shape.poly {v})"},
+           doc="Polygon(...) is the model constructor polyMk (ring closed, oriented clockwise)"))
+    add(T5("ShapeGroup_translate_rotate", SHAPE, TR, "ShapeGroup", f"(m : {R}Mo) (ss : List {R}Shape)", R + "Shape", env=MO,
+           attrs={("self", "_shapes"): ("ss", "list:shape"), ("self", "shapes"): ("ss", "list:shape")}, methods=shape_m,
+           ctors={"ShapeGroup": (R + "Shape.group {0}", ["list:shape"], "shape", False)}, ret_types=ident("shape"),
+           doc="s.translate_rotate on a member is the model's dispatch Shape.move (its branches are the four ties of this file)"))
+
+    # states
+    st_rec = ("(⟨tpos, tori, tvel⟩ : " + R + "State)", "state")
+    st_copies = {"transformed_state": ([("tpos", "pos"), ("tori", "ori"), ("tvel", "vel")], st_rec)}
+    st_assign = {("transformed_state", "position"): ("tpos", {"pt": R + "Pos.pt {v}", "shape": R + "Pos.region {v}"}),
+                 ("transformed_state", "orientation"): ("tori", {"rat": R + "Ori.exact {v}", "angleiv": R + "Ori.iv {v}"})}
+    add(T5("State_translate_rotate", STATE, TR, "State", f"(m : {R}Mo) (pos : {R}Pos) (ori : {R}Ori) (vel : Option {R}Pt)", R + "State",
+           env={**MO, "self": ("(⟨pos, ori, vel⟩ : " + R + "State)", "state")}, methods=shape_m, copies=st_copies, assign=st_assign,
+           src={"hasattr(self, 'position') and getattr(self, 'position') is not None": ("(CR.PyC05.posIsSome pos)", "bool"),
+                "'orientation' in self.attributes and getattr(self, 'orientation') is not None": ("(CR.PyC05.oriIsSome ori)", "bool")},
+           refine={"isinstance(self.position, ValidTypes.ARRAY)":
+                   ("(CR.PyC05.posIsArray pos)", {"self.position": ("(CR.PyC05.posArray pos)", "pt")}),
+                   "isinstance(self.position, Shape)":
+                   ("(CR.PyC05.posIsShape pos)", {"self.position": ("(CR.PyC05.posShape pos)", "shape")}),
+                   "isinstance(self.orientation, ValidTypes.NUMBERS)":
+                   ("(CR.PyC05.oriIsNum ori)", {"self.orientation": ("(CR.PyC05.oriNum ori)", "rat")}),
+                   "isinstance(self.orientation, AngleInterval)":
+                   ("(CR.PyC05.oriIsIv ori)", {"self.orientation": ("(CR.PyC05.oriIv ori)", "angleiv"),
+                                               "transformed_state.orientation": ("(CR.PyC05.oriIv tori)", "angleiv")})},
+           ret_types=ident("state"),
+           doc="the dynamic type tests on position / orientation are the predicates of CRModel/PyExtC05.lean"))
+    add(T5("PMState_translate_rotate", STATE, TR, "PMState", f"(m : {R}Mo) (pos : {R}Pos) (ori : {R}Ori) (vel : Option {R}Pt)", R + "State",
+           env=MO, copies=st_copies, super_call=("State_translate_rotate m pos ori vel", "state"),
+           attrs={("self", "velocity"): ("(vel.getD ⟨0, 0⟩).x", "rat"), ("self", "velocity_y"): ("(vel.getD ⟨0, 0⟩).y", "rat")},
+           assign={("transformed_state", "velocity"): ("tvel", {"rat": "some ⟨{v}, (tvel.getD ⟨0, 0⟩).y⟩"}),
+                   ("transformed_state", "velocity_y"): ("tvel", {"rat": "some ⟨(tvel.getD ⟨0, 0⟩).x, {v}⟩"})},
+           src={"is_real_number(self.velocity) and is_real_number(self.velocity_y)": ("vel.isSome", "bool")},
+           ret_types=ident("state"), doc="vel = some (velocity, velocity_y) iff both are real numbers"))
+
+    # trajectory, predictions
+    a, w = rw("sts", "list:state", "_state_list", "state_list")
+    add(T5("Trajectory_translate_rotate", "commonroad/scenario/trajectory.py", TR, "Trajectory", f"(m : {R}Mo) (sts : List {R}State)",
+           f"List {R}State", env=MO, attrs=a, assign=w, methods=state_m, init=[("sts", "sts")], result="sts"))
+    a, w = rw("sh", "shape", "_shape", "shape")
+    add(T5("Occupancy_translate_rotate", PRED, TR, "Occupancy", f"(m : {R}Mo) (sh : {R}Shape)", R + "Shape", env=MO, attrs=a, assign=w,
+           methods=shape_m, init=[("sh", "sh")], result="sh"))
+    a, w = rw("shs", "list:occ", "_occupancy_set", "occupancy_set")
+    add(T5("SetBasedPrediction_translate_rotate", PRED, TR, "SetBasedPrediction", f"(m : {R}Mo) (shs : List {R}Shape)", f"List {R}Shape",
+           env=MO, attrs=a, assign=w, methods={"occ": ("Occupancy_translate_rotate m", "inplace", "occ")}, init=[("shs", "shs")],
+           result="shs"))
+    a, w = rw("sts", "traj", "_trajectory", "trajectory")
+    add(T5("TrajectoryPrediction_translate_rotate", PRED, TR, "TrajectoryPrediction", f"(m : {R}Mo) (body : {R}Shape) (sts : List {R}State)",
+           R + "Pred", env=MO, attrs=a, assign=w, methods={"traj": ("Trajectory_translate_rotate m", "inplace", "traj")},
+           init=[("sts", "sts")], result="(" + R + "Pred.traj body sts)", ignore={"self._invalidate_occupancy_set"},
+           doc="the body-frame `shape` is not touched; cache invalidation is C11's subject"))
+
+    # road network
+    pq_a = {("self", "_start"): ("p", "pt"), ("self", "start"): ("p", "pt"), ("self", "_end"): ("q", "pt"), ("self", "end"): ("q", "pt")}
+    pq_w = {k: (v[0], ident("pt")) for k, v in pq_a.items()}
+    add(T5("StopLine_translate_rotate", "commonroad/common/common_lanelet.py", TR, "StopLine", f"(m : {R}Mo) (sl : {R}Pt × {R}Pt)",
+           f"{R}Pt × {R}Pt", env=MO, attrs=pq_a, assign=pq_w, init=[("p", "sl.1"), ("q", "sl.2")], result="(p, q)"))
+    la_a, la_w = {}, {}
+    for var, names in (("left", ("_left_vertices", "left_vertices")), ("center", ("_center_vertices", "center_vertices")),
+                       ("right", ("_right_vertices", "right_vertices"))):
+        a, w = rw(var, "pts", *names)
+        la_a.update(a)
+        la_w.update(w)
+    la_w[("self", "_polygon")] = ("poly", ident("ring"))
+    add(T5("Lanelet_translate_rotate", "commonroad/scenario/lanelet.py", TR, "Lanelet", f"(m : {R}Mo) (la : {R}Lanelet)", R + "Lanelet",
+           env=MO, attrs=la_a, assign=la_w, opt={("self", "_stop_line"): ("stop", "stop"), ("self", "stop_line"): ("stop", "stop")},
+           methods={"stop": ("StopLine_translate_rotate m", "inplace", "stop")},
+           ctors={"Polygon": (R + "polyMk {0}", ["pts"], "ring", True)},
+           init=[("left", "la.left"), ("center", "la.center"), ("right", "la.right"), ("stop", "la.stop"), ("poly", "la.poly")],
+           result="(⟨left, center, right, stop, poly⟩ : " + R + "Lanelet)"))
+    for cls, file in (("TrafficSign", "commonroad/scenario/traffic_sign.py"),):
+        a, w = rw("p", "pt", "_position", "position")
+        add(T5(cls + "_translate_rotate", file, TR, cls, f"(m : {R}Mo) (p : {R}Pt)", R + "Pt", env=MO, attrs=a, assign=w,
+               init=[("p", "p")], result="p"))
+    a, w = rw("pos", "pt", "_position", "position")
+    add(T5("TrafficLight_translate_rotate", "commonroad/scenario/traffic_light.py", TR, "TrafficLight", f"(m : {R}Mo) (l : {R}Light)",
+           R + "Light", env=MO, attrs=a, assign=w, init=[("pos", "l.pos")], result="(⟨pos, l.shape⟩ : " + R + "Light)",
+           doc="the body-frame housing `shape` is not touched"))
+    a, w = rw("vs", "pts", "_border_vertices", "border_vertices")
+    add(T5("AreaBorder_translate_rotate", "commonroad/scenario/area.py", TR, "AreaBorder", f"(m : {R}Mo) (vs : {P})", P, env=MO,
+           attrs=a, assign=w, init=[("vs", "vs")], result="vs"))
+    a, w = rw("bs", "list:border", "_border", "border")
+    add(T5("Area_translate_rotate", "commonroad/scenario/area.py", TR, "Area", f"(m : {R}Mo) (bs : List ({P}))", f"List ({P})", env=MO,
+           attrs=a, assign=w, methods={"border": ("AreaBorder_translate_rotate m", "inplace", "border")}, init=[("bs", "bs")],
+           result="bs"))
+    NET = f"List {R}Lanelet × List {R}Pt × List {R}Light × List (List ({P}))"
+    na, nw = {}, {}
+    for var, ty, names in (("ls", "list:lanelet", ("_lanelets",)), ("sg", "list:sign", ("_traffic_signs",)),
+                           ("lt", "list:light", ("_traffic_lights",)), ("ar", "list:area", ("_areas",))):
+        a, w = rw(var, ty, *names)
+        na.update(a)
+        nw.update(w)
+    add(T5("LaneletNetwork_translate_rotate", "commonroad/scenario/lanelet.py", TR, "LaneletNetwork", f"(m : {R}Mo) (net : {NET})", NET,
+           env=MO, attrs=na, assign=nw,
+           methods={"lanelet": (R + "Lanelet.move m", "inplace", "lanelet"), "sign": (R + "movePosition m", "inplace", "sign"),
+                    "light": (R + "Light.move m", "inplace", "light"), "area": ("Area_translate_rotate m", "inplace", "area")},
+           init=[("ls", "net.1"), ("sg", "net.2.1"), ("lt", "net.2.2.1"), ("ar", "net.2.2.2")], result="(ls, sg, lt, ar)",
+           ignore={"self._create_strtree"}, ignore_assign={("self", "_buffered_polygons")},
+           doc="the dicts id -> object as lists in insertion order; the spatial index rebuilt at the end is not modelled"))
+
+    # obstacles
+    a, w = rw("st", "state", "_initial_state", "initial_state")
+    add(T5("StaticObstacle_translate_rotate", OBST, TR, "StaticObstacle", f"(m : {R}Mo) (body : {R}Shape) (st : {R}State)", R + "Obstacle",
+           env=MO, attrs=a, assign=w, methods=state_m, init=[("st", "st")], result="(" + R + "Obstacle.static body st)"))
+    a2, w2 = rw("pred", "pred", "_prediction", "prediction")
+    a3, w3 = rw("hist", "list:state", "_history", "history")
+    add(T5("DynamicObstacle_translate_rotate", OBST, TR, "DynamicObstacle",
+           f"(m : {R}Mo) (body : {R}Shape) (st : {R}State) (pred : {R}Pred) (hist : List {R}State)", R + "Obstacle", env=MO,
+           attrs={**a, **a2, **a3}, assign={**w, **w2, **w3},
+           methods={**state_m, "pred": (R + "Pred.move m", "inplace", "pred")},
+           src={"self._prediction is not None": ("(CR.PyC05.predIsSome pred)", "bool"),
+                "self.prediction is not None": ("(CR.PyC05.predIsSome pred)", "bool")},
+           init=[("st", "st"), ("pred", "pred"), ("hist", "hist")], result="(" + R + "Obstacle.dynamic body st pred hist)",
+           doc="prediction.translate_rotate is the model's dispatch Pred.move (branches tied above)"))
+    add(T5("PhantomObstacle_translate_rotate", OBST, TR, "PhantomObstacle", f"(m : {R}Mo) (p : Option (List {R}Shape))", R + "Obstacle",
+           env=MO, opt={("self", "_prediction"): ("p", "occs"), ("self", "prediction"): ("p", "occs")},
+           methods={"occs": (R + "moveOccs m", "inplace", "occs")}, init=[("p", "p")], result="(" + R + "Obstacle.phantom p)"))
+    a, w = rw("sh", "shape", "_obstacle_shape", "obstacle_shape")
+    add(T5("EnvironmentObstacle_translate_rotate", OBST, TR, "EnvironmentObstacle", f"(m : {R}Mo) (sh : {R}Shape)", R + "Obstacle", env=MO,
+           attrs=a, assign=w, methods=shape_m, init=[("sh", "sh")], result="(" + R + "Obstacle.env sh)"))
+
+    # scenario, planning problems
+    a, w = rw("net", "net", "_lanelet_network", "lanelet_network")
+    a2, w2 = rw("obs", "list:obstacle", "obstacles")
+    add(T5("Scenario_translate_rotate", "commonroad/scenario/scenario.py", TR, "Scenario", f"(m : {R}Mo) (sc : {R}Scenario)", R + "Scenario",
+           env=MO, attrs={**a, **a2}, assign={**w, **w2},
+           methods={"net": ("LaneletNetwork_translate_rotate m", "inplace", "net"), "obstacle": (R + "Obstacle.move m", "inplace", "obstacle")},
+           init=[("net", "(sc.lanelets, sc.signs, sc.lights, sc.areas)"), ("obs", "sc.obstacles")],
+           result="(⟨net.1, net.2.1, net.2.2.1, obs, net.2.2.2⟩ : " + R + "Scenario)",
+           doc="`self.obstacles` (all roles, scenario order) is the model's obstacle list"))
+    a, w = rw("sts", "list:state", "state_list", "_state_list")
+    add(T5("GoalRegion_translate_rotate", "commonroad/planning/goal.py", TR, "GoalRegion", f"(m : {R}Mo) (sts : List {R}State)",
+           f"List {R}State", env=MO, attrs=a, assign=w, methods=state_m, init=[("sts", "sts")], result="sts"))
+    a, w = rw("ini", "state", "initial_state", "_initial_state")
+    a2, w2 = rw("goal", "goal", "goal", "_goal")
+    add(T5("PlanningProblem_translate_rotate", "commonroad/planning/planning_problem.py", TR, "PlanningProblem",
+           f"(m : {R}Mo) (pp : {R}Problem)", R + "Problem", env=MO, attrs={**a, **a2}, assign={**w, **w2},
+           methods={**state_m, "goal": ("GoalRegion_translate_rotate m", "inplace", "goal")},
+           init=[("ini", "pp.init"), ("goal", "pp.goal")], result="(⟨ini, goal⟩ : " + R + "Problem)"))
+    a, w = rw("l", "list:problem", "_planning_problem_dict", "planning_problem_dict")
+    add(T5("PlanningProblemSet_translate_rotate", "commonroad/planning/planning_problem.py", TR, "PlanningProblemSet",
+           f"(m : {R}Mo) (l : List {R}Problem)", f"List {R}Problem", env=MO, attrs=a, assign=w,
+           methods={"problem": (R + "Problem.move m", "inplace", "problem")}, init=[("l", "l")], result="l"))
     return ts
 
 
